@@ -12,7 +12,7 @@ RULE = ("types as in C04 without standard-library marshaler types; per type ever
         "single-point mutation of it (drop a key, add a key, swap a value's JSON type incl. null, push an integer past each sized bound, "
         "a fraction, array length +-1; <= 400 per encoding): whenever Validate accepts, json.Decoder with DisallowUnknownFields must decode "
         "into *T (the property observed directly on the real package). Non-trivial: composite type; distinct = operation text")
-OUTSIDE = c04.OUTSIDE | {"marshaler", "bigint"}
+OUTSIDE = (c04.OUTSIDE - {"bytes"}) | {"marshaler", "bigint"}      # byte slices: their schema must still only accept what decodes
 
 
 def gen(rng, tier, n):
